@@ -478,3 +478,12 @@ impl Index<&SymbolId> for SymbolTable {
 //     table.exit_scope();
 //     assert_eq!(table.lookup(&name1).unwrap().scope_level(), 0);
 // }
+
+// Verification hook (compiled only with the cargo feature `oq3_verif`): lets an external
+// replay driver open scopes, which is otherwise crate-private.
+#[cfg(feature = "oq3_verif")]
+impl SymbolTable {
+    pub fn verif_enter_scope(&mut self, scope_type: ScopeType) {
+        self.enter_scope(scope_type)
+    }
+}
